@@ -170,7 +170,10 @@ def dict2structure(dictionary: dict) -> Structure:
     dictionary = copy.deepcopy(dictionary)
     return Structure(
         lattice=dict2lattice(dictionary["lattice"]),
-        atoms=[dict2atom(atom) for atom in dictionary["atoms"].values()],
+        atoms=[
+            dict2atom(atom)
+            for _, atom in sorted(dictionary["atoms"].items(), key=lambda kv: int(kv[0]))
+        ],
     )
 
 
